@@ -42,7 +42,7 @@ META = {
     "assumptions": ["reduction:none with the DFS explorer and no strategy enumerates every maximal execution",
                     "a fired watchdog is inconclusive; a hang is only reported when a run exceeds twice a budget of "
                     "max(90 s, 8 x wall time of the unreduced exploration of the same program), then three times that"],
-    "ready": False,
+    "ready": True,
 }
 
 # Directed programs: (name, spec, pinned uniform-strategy configurations (reduction, explorer, rand-seed)).
